@@ -100,7 +100,13 @@ Catalog == <<
       Plain(<<T("rd"), ST>>, << << <<"rd","1">> >> >>, <<
           Rew(Plain(<<T("r"), ST>>, << << <<"r","1">> >>, << <<"r","2">> >> >>, <<
               Plain(<<T("c"), ST>>, << << <<"c","1">> >> >>, <<
-                  Plain(<<T("g"), ST>>, << << <<"g","1">> >>, << <<"g","2">> >> >>, <<>>) >>) >>)) >>) >>]
+                  Plain(<<T("g"), ST>>, << << <<"g","1">> >>, << <<"g","2">> >> >>, <<>>) >>) >>)) >>) >>],
+  [name |-> "ignore-exception", rules |-> <<       \* `!` exceptions written AFTER the general rule they carve out of, and a %global one above a local catch-all
+      Plain(<<T("ip"), TT>>, << << <<"ip","a","1">> >>, << <<"ip","b">> >> >>, <<>>),
+      Ign(Plain(<<T("ip"), T("secret"), TT>>, <<>>, <<>>)),
+      Glob(Ign(Plain(<<T("secret"), TT>>, <<>>, <<>>))),
+      Plain(<<T("blk"), ST>>, << << <<"blk","1">> >> >>, <<
+          Plain(<<TT>>, << << <<"x","1">> >>, << <<"y">> >> >>, <<>>) >>) >>]
 >>
 
 (* ------------------------------ Configs(R) ------------------------------ *)
